@@ -43,7 +43,7 @@ type brow struct {
 }
 
 func accountAddr(id int64) string { return fmt.Sprintf("acc:%04d", id) }
-func dateOf(attr int) string      { return fmt.Sprintf("2023-01-01T00:00:%02dZ", attr%60) }
+func dateOf(attr int) string      { return fmt.Sprintf("2019-01-01T00:00:%02dZ", attr%60) }
 
 type bucket struct {
 	d      *tabledrv.DB
